@@ -160,6 +160,25 @@ def run(ctx):
                 if ca[i] != st:
                     concrete.append({"kind": "strict-decoder", "forced": c["forced"], "meta": c["meta"], "wbxml": c["bytes"].hex(),
                                      "c": (ca[i] or "")[:3000], "oracle": st[:3000]})
+    # ---- oracle for the charset clause alone ("the charset ... announced at document start [is what] the header selects"),
+    #      from the generating document's header fields, independent of the Coq development: an explicit charset field wins;
+    #      a missing (WBXML 1.0) or zero field leaves the choice to the transport's meta charset, else UTF-8 (106)
+    charset_n = 0
+    for i, c in enumerate(cases):
+        d = c.get("doc")
+        a = ca[i] or ""
+        if not d or not a.startswith("ok SD:"):
+            continue
+        try:
+            got = int(a.split(" ")[1].split(":")[1])
+        except (IndexError, ValueError):
+            continue
+        field = d.get("charset", 0) if d.get("ver", 3) != 0 else 0
+        want = field if field else (d.get("meta", 0) or 106)
+        charset_n += 1
+        if got != want:
+            concrete.append({"kind": "charset-announced", "forced": c["forced"], "meta": c["meta"], "wbxml": c["bytes"].hex(),
+                             "c": a[:300], "oracle": "start_document charset %d (header field %d, meta %d)" % (want, field, d.get("meta", 0))})
     # ---- tree builder (Model/TreeBuild.v vs wbxml_tree_from_wbxml): same documents plus SyncML-shaped ones ----
     tree_hard, tree_soft, tree_n, tree_feats = [], 0, 0, collections.Counter()
     tcr = []
@@ -220,6 +239,7 @@ def run(ctx):
         "correspondence_disagreements_soft": sum(soft.values()),
         "soft_examples": dict(list(soft.items())[:5]),
         "oracle_documents": oracle_n,
+        "oracle_charset_clause_documents": charset_n,
         "oracle_padded_mb_u_int32": {k: v for k, v in kinds.items() if k.startswith("padded-") or k.startswith("tol-mb5")},
         "oracle_documents_wf": oracle_wf,
         "strict_decoder_documents": strict_n,
